@@ -22,7 +22,6 @@ impl System {
 }
 //@impl src/compression.rs | impl CompressionMethod
 impl CompressionMethod {
-//@item src/compression.rs | impl CompressionMethod | const AES
 //@use cm_from_u16
 }
 //@impl src/types.rs | impl DateTime
